@@ -135,7 +135,8 @@ SbjStep(s, kind, root, st) ==
          [s |-> [s EXCEPT !.items = Append(@, st.v), !.last = <<st.v>>],
           out |-> [u \in Sinks |-> IF u \in s.live /\ kind # "async" THEN << <<"n", M(st.v)>> >> ELSE <<>>]]
     [] st.k = "subj" ->       \* error / complete: every current observer gets the terminal (AsyncSubject: the last item first, on completion)
-         [s |-> [s EXCEPT !.live = {}, !.term = <<[k |-> st.e, v |-> st.v]>>, !.open = FALSE],
+         \* (a plain Subject keeps no memory of the terminal: it stays usable, with no observers, and is judged on)
+         [s |-> [s EXCEPT !.live = {}, !.term = <<[k |-> st.e, v |-> st.v]>>, !.open = (kind = "plain")],
           out |-> [u \in Sinks |-> IF u \notin s.live THEN <<>>
                                    ELSE (IF kind = "async" /\ st.e = "c" /\ s.last # <<>> THEN << <<"n", M(s.last[1])>> >> ELSE <<>>)
                                         \o << <<st.e, IF st.e = "e" THEN st.v ELSE 0>> >>]]
@@ -153,7 +154,9 @@ SbjRun(tr, i, s, kind, root) ==
   ELSE IF ~s.open THEN
        \* after the first terminal the statement still fixes what a NEW subscriber is handed: a ReplaySubject every past item in
        \* order followed by the stored terminal, a BehaviorSubject the stored terminal; everything else (further calls on a
-       \* terminated subject, late subscribers of Subject / AsyncSubject) is left open and not judged
+       \* terminated Behavior / Replay / AsyncSubject, late subscribers of an AsyncSubject) is left open and not judged.  A plain
+       \* Subject never gets here: after a terminal it is an empty Subject again and "exactly the observers subscribed at that
+       \* moment" goes on applying
        /\ (tr[i].st.k = "sub" /\ kind \in {"replay", "behavior"} /\ ~s.reused) =>
             PerSink(tr[i].obs, tr[i].st.a) = (IF kind = "replay" THEN [j \in 1..Len(s.items) |-> <<"n", SubjMap(root, s.items[j])>>] ELSE <<>>)
                                               \o << <<s.term[1].k, IF s.term[1].k = "e" THEN s.term[1].v ELSE 0>> >>
